@@ -126,6 +126,36 @@ def junk_corpus(w):
                              "witness": {"replay_kind": "buffer.stream", "pieces": pieces, "threshold": th}, "reproduced": True})
         if len(failures) >= 3:
             break
+    # junk that opens like markup without imitating a protocol element (declaration, comment, unknown opener with attributes, closing
+    # tag), longer than the message behind it and arriving in an EARLIER read than that message: the retained tail of the junk must not
+    # change how the following message is scanned (state carried from one process() call to the next)
+    long_junk = ['<?xml version="1.0" encoding="UTF-8" standalone="yes"?>' + " " * 40,
+                 "<!-- " + "a comment, nothing that looks like the protocol; " * 3 + "-->",
+                 '<unknownTag attr="value" other="another value > with a bracket" third="and a third one, to make it long enough" x="y">',
+                 "</closing>" + ">" * 90, "<" + "q" * 150 + ">"]
+    for th in (128, 2048, None):
+        for j in long_junk:
+            for m in msgs:
+                for split in (0, 1, len(m) // 2):
+                    if len(failures) >= 3 or (th is not None and (len(j) > th or len(m) > th)):
+                        continue
+                    pieces = [j] + ([m] if split == 0 else [m[:split], m[split:]]) + ['<getProperties version="1.7"/>']
+                    b = Buffer()
+                    b.max_buffer_size_before_frontal_cleanup = th
+                    got = []
+                    cases += 1
+                    try:
+                        for p_ in pieces:
+                            b.append(p_)
+                            b.process(got.append)
+                    except Exception as e:
+                        failures.append({"detail": "raised %r" % (e,), "witness": {"replay_kind": "buffer.stream", "pieces": pieces, "threshold": th}, "reproduced": True})
+                        continue
+                    want = [IndiMessage.from_string(m), IndiMessage.from_string('<getProperties version="1.7"/>')]
+                    if got != want:
+                        failures.append({"detail": "junk %r... read before the message: delivered %d of the %d valid messages behind it (threshold %r)" % (j[:24], len(got), len(want), th),
+                                         "witness": {"replay_kind": "buffer.stream", "pieces": pieces, "threshold": th,
+                                                     "expect": [m, '<getProperties version="1.7"/>']}, "reproduced": True})
     # recovery from a truncated element: every later valid message is delivered once the threshold is exceeded
     pings = ['<pingRequest uid="%d"/>' % i for i in range(120)]
     for th in (128, 2048):
